@@ -107,7 +107,7 @@ var corpusTexts = []string{
 
 func checkC20(c *Ctx) {
 	c.Res.Rule = "strings: 45% sentences rendered from random trees of the extracted grammar with random spellings, 35% 1-3 step mutations of sentences, 12% token soup, 8% random bytes; a case is non-trivial and distinct when its string is new and it is a sentence with >= 2 tokens or a string on which lexer or parser must report an error after at least one good token"
-	n := c.budget(25000, 400000)
+	n := c.budget(25000, 1200000)
 	type tc struct {
 		s, fam string
 		t      *Node
@@ -195,7 +195,7 @@ func checkC20(c *Ctx) {
 
 func checkC05(c *Ctx) {
 	c.Res.Rule = "rule texts as for C20 (mutants and soups weighted up) each with 3 objects drawn for the sentence it was derived from (so that the well-formed prefix tends to be true); classified by the Lean recogniser on the trimmed text; non-trivial = distinct text that is NOT a sentence and has >= 2 good tokens"
-	n := c.budget(10000, 150000)
+	n := c.budget(10000, 450000)
 	type tc struct {
 		s, fam string
 		objs   []*AV
@@ -320,7 +320,7 @@ func wrapVariant(r *RNG, n *Node, p int) *Node {
 
 func checkC15(c *Ctx) {
 	c.Res.Rule = "random well-formed rules (1-10 comparisons), each rendered canonically and in 6 respelled variants (every alternative spelling from the extracted grammar, optional blanks, newlines after blanks, blanks after commas, redundant parentheses around random sub-rules) and evaluated on 3 objects; non-trivial = distinct (rule, variant) whose text differs from the canonical text"
-	n := c.budget(2000, 40000)
+	n := c.budget(2000, 120000)
 	for i := 0; i < n && !c.full(); i++ {
 		t := genTree(c.R, 1+c.R.Intn(10), 3, nil)
 		canon := c.style(true).Render(t)
